@@ -25,7 +25,8 @@ RULE = ("case = one generated netlist (shared definitions at several depths, lea
         "shape hash; non-trivial = some definition reached by >=2 paths and >=150 references enumerated")
 ASSUMPTIONS = ["is_unique means: valid and the reference's innermost instance is reached by exactly one path from the top "
                "(instance-occurrence reading, matches the class documentation; see DESIGN.md C11)"]
-REQUIRED = {"enumerations_compared": 1000, "refs_checked": 10000, "post_edit_evaluations": 20000, "element_root_queries": 2000}
+REQUIRED = {"enumerations_compared": 1000, "refs_checked": 10000, "post_edit_evaluations": 20000, "element_root_queries": 2000,
+            "instance_then_definition_root_queries": 100}
 PROBES = {}
 FUNCS = None
 
